@@ -23,7 +23,15 @@ def sh(cmd, **kw):
 
 def main():
     sel = sys.argv[1:]
+    shard = None
+    if sel and sel[0].startswith('--shard='):      # --shard=i/n : every n-th case starting at i, own cache
+        i, n = sel[0][8:].split('/')
+        shard = (int(i), int(n))
+        sel = sel[1:]
+        os.environ['OXA_CACHE'] = os.path.join(VERIF, '.cache', 'shard%d' % shard[0])
     cases = [c for c in CASES if not sel or any(s in c['name'] for s in sel)]
+    if shard:
+        cases = cases[shard[0]::shard[1]]
     scratch = tempfile.mkdtemp(prefix='oxa-selftest-', dir='/tmp')
     repo = os.path.join(scratch, 'repo')
     evid = os.path.join(scratch, 'evidence')
